@@ -111,41 +111,6 @@ Fixpoint s_history (s : sstate) (h : history) : list obs :=
   end.
 Definition eval_spec (h : history) : list obs := s_history s_init h.
 
-(* ---------- the named classes of histories on which the code departs from the Spec ---------- *)
-(* failed_import_poisons_module: an import whose closure contains a module whose body failed earlier (no RESET in
-   between). *)
-Inductive known_class := KFailedImport.
-
-Record kstate := mkK { k_poisoned : modk -> bool }.
-Definition k_init : kstate := mkK (fun _ => false).
-Definition k_poison (m : modk) (k : kstate) : kstate :=
-  mkK (fun x => if modk_eqb m x then true else k_poisoned k x).
-
-Definition scan_snippet (k : kstate) (sn : snip) : kstate * option known_class :=
-  match sn with
-  | SnImport MThrow => if k_poisoned k MThrow then (k, Some KFailedImport) else (k_poison MThrow k, None)
-  | SnImport MNest =>
-      if k_poisoned k MNest || k_poisoned k MThrow then (k_poison MNest k, Some KFailedImport)
-      else (k_poison MNest (k_poison MThrow k), None)
-  | SnReset => (k_init, None)
-  | _ => (k, None)
-  end.
-
-Fixpoint scan_history (k : kstate) (h : history) : list (option known_class) :=
-  match h with
-  | [] => []
-  | sn :: r => let '(k', o) := scan_snippet k sn in o :: scan_history k' r
-  end.
-Definition known_classes (h : history) : list (option known_class) := scan_history k_init h.
-Definition in_known_class (h : history) : bool :=
-  existsb (fun o => match o with Some _ => true | None => false end) (known_classes h).
-
-Definition show_known (o : option known_class) : string :=
-  match o with
-  | None => "-"
-  | Some KFailedImport => "failed_import_poisons_module"
-  end.
-
 (* ---------- entry points for the tie (tools/props/C15.py) ----------
    Compact output (printing long strings is what costs time in coqc): messages are printed as an index into
    msg_table (printed once by the plug-in), the H5 record as 12 numbers. *)
@@ -181,22 +146,19 @@ Definition c_h5 (core : nat) (c : carried) : string :=
      show_nat (fb_stack f); show_nat (List.length (fb_handlers f)); show_b01 (fb_retpend f); show_b01 (fb_errip f);
      show_b01 (c_classdef c); show_nat (S (count_mods (c_mods c))); show_nat (core + c_chunks c); show_nat core;
      show_nat (List.length (c_ranges c))].
-Definition c_known (o : option known_class) : string :=
-  match o with None => "-" | Some KFailedImport => "I" end.
-
-Fixpoint c_rows (core : nat) (ss : list obs) (ms : list (obs * carried)) (ks : list (option known_class)) : list string :=
-  match ss, ms, ks with
-  | s :: ss', (o, c) :: ms', k :: ks' =>
+Fixpoint c_rows (core : nat) (ss : list obs) (ms : list (obs * carried)) : list string :=
+  match ss, ms with
+  | s :: ss', (o, c) :: ms' =>
       let so := c_obs s in
       let mo := c_obs o in
-      (so ++ "~" ++ (if String.eqb so mo then "=" else mo) ++ "~" ++ c_h5 core c ++ "~" ++ c_known k) :: c_rows core ss' ms' ks'
-  | _, _, _ => []
+      (so ++ "~" ++ (if String.eqb so mo then "=" else mo) ++ "~" ++ c_h5 core c ++ "~-") :: c_rows core ss' ms'
+  | _, _ => []
   end.
 
-(* one row per snippet: spec ~ mech (or =) ~ H5 numbers ~ known class *)
+(* one row per snippet: spec ~ mech (or =) ~ H5 numbers ~ known class (none is left: always "-") *)
 Definition run_case (core : nat) (wire : string) : string :=
   let h := history_of_wire wire in
-  show_sep "|" (fun x => x) (c_rows core (eval_spec h) (eval_mech h) (known_classes h)).
+  show_sep "|" (fun x => x) (c_rows core (eval_spec h) (eval_mech h)).
 
 (* the source text of one snippet (the plug-in renders every distinct snippet once) *)
 Definition render_wire (wire : string) : string := render_history (history_of_wire wire).
